@@ -21,6 +21,14 @@ Streams
              (after `*` and after `*args`, with and without default), positional-only and `**`
              parameters of functions, methods, `__init__`, nested functions and lambdas; rename
              from the parameter, from a use in the body and from the call-site keyword.
+  refs/globals, render/globals, oracle (tag globals)
+             generated programs in which ONE module variable is (re)bound through `global` declarations
+             of two or three scopes (gen/globalvars.py: top-level functions, nested functions, functions
+             in class bodies, class bodies; readers with and without declaration; with and without a
+             module-level binding): all clauses from every occurrence, in particular from inside each
+             declaring scope.
+  globalstep references.py:_find_global_variables alone (called on what _find_names answers, flow analysis
+             off) vs Model.RefsGlobal.globalVariablesOf with the guard the translator reads from the source.
 """
 import ast
 import os
@@ -32,8 +40,9 @@ from gen import multimod as GM
 from props import c05_multimod as MM
 from props import c05_kwparams as KW
 from gen import kwparams as GK
+from gen import globalvars as GV
 
-MODELS = ['Scopes', 'Refs', 'RefsMulti', 'KwBind']
+MODELS = ['Scopes', 'Refs', 'RefsGlobal', 'RefsMulti', 'KwBind']
 LEAN_TARGETS = ['JediModel.Props.C05', 'JediModel.Drivers.C05']
 MANIFEST = dict(
     text='Theorems: refs_sound_partial (every reported reference denotes the variable under the cursor, for '
@@ -62,12 +71,23 @@ MANIFEST = dict(
          'filter without KEYWORD_ONLY; tie: Script.goto on the keyword of a call = the model, for all well-formed signatures '
          'of <= 3 parameters x every keyword x function/method/__init__ (stream kwgoto). Direct oracle on generated programs '
          'whose parameters of every kind are passed by keyword (stream kwparam) and on multi-module projects with keyword '
-         'calls across modules.',
+         'calls across modules. Module variables living through `global` statements of several scopes '
+         '(Model/RefsGlobal: _find_global_variables with its decision which `global x` statements are linked to the found '
+         'names as a parameter the translator reads from the loop body - no guard / `continue` unless the found name is '
+         'a module name or sits in the scope of the statement; TieBroken otherwise): global_step_links_every_statement '
+         '(every `global x` name of the module and every definition of x in its scope is yielded, whatever the found names), '
+         'global_writers_are_references (for every program and every start spelled x: every `global x` statement and every '
+         'binding of x in a scope that declares it - a binding of the module variable, varOf = 0 - is among the references, '
+         'also from inside another declaring scope), refsG_is_refs (the parametrised model run by the correspondence is the '
+         'model of the older theorems), same_scope_only_loses_global_writers (kernel-checked counter-model for the guarded '
+         'shape: two declaring functions, the writer of the other one is lost and the sets are no partition). Ties: stream '
+         'globalstep (the real _find_global_variables = the model, on every program with a global statement), refs/render on '
+         'generated programs with two or three declaring scopes (gen/globalvars.py); the direct oracle executes them.',
     note='Modelled not verified: the Scopes fragment (straight-line bodies, no imports) for one module; for several '
          'modules only the scan loop is modelled (what goto answers for a token across imports is an input of the model); '
          'import resolution, file/package renames and the project-wide file search are covered by the direct oracle on '
          'generated projects (stream multimod) only.',
-    technique='Lean 4 proof over hand-written model + differential correspondence + execution oracle',
+    technique='Lean 4 proof over hand-written model (global step parametrised by the guard read from the source) + differential correspondence (find_references, _find_global_variables, keyword goto) + execution oracle',
     design='5.C05')
 
 FRESH = 'zz_new'
@@ -196,6 +216,32 @@ def shape_of(flat, occs, u):
     return 'unclassified'
 
 
+def global_step(src, project, occs, pos2id):
+    """the real references.py:_find_global_variables on the names _find_names answers for every occurrence
+    (flow analysis off, as inside find_references): {occ id: sorted occurrence ids yielded}"""
+    import jedi
+    from jedi.inference import references as R
+    s = jedi.Script(src, project=project)
+    mc = s._get_module_context()
+    inf = mc.inference_state
+    out = {}
+    for o in occs:
+        leaf = s._module_node.get_name_of_position((o['line'], o['col']))
+        if leaf is None:
+            continue
+        try:
+            inf.flow_analysis_enabled = False
+            names = R._find_names(mc, leaf)
+            res = list(R._find_global_variables(names, leaf.value))
+        except Exception as e:
+            out[o['id']] = 'raised:%s@%s' % common.exc_site(e)
+            continue
+        finally:
+            inf.flow_analysis_enabled = True
+        out[o['id']] = sorted({pos2id.get(n.tree_name.start_pos, -1) if n.tree_name is not None else -1 for n in res})
+    return out
+
+
 def analyse(prog):
     """pure analysis of one program on the real code (runs in worker processes)"""
     import jedi
@@ -221,7 +267,9 @@ def analyse(prog):
             continue
         refs[o['id']] = sorted(pos2id.get((d.line, d.column), -1) for d in res)
     out = {'prog': prog, 'src': src, 'occs': occs, 'flat': flat, 'refs': refs, 'raised': raised,
-           'fails': [], 'judged': 0, 'renders': []}
+           'fails': [], 'judged': 0, 'renders': [], 'gvars': {}}
+    if any(o['role'] == 'global' for o in occs):
+        out['gvars'] = global_step(src, project, occs, pos2id)
     base = None
     # occurrences with a lexical meaning in the executed program: bindings, declarations, and uses
     # that were executed and found a binding.  A use that is never executed, or that reads an
@@ -311,6 +359,7 @@ EMPTY_PROJECT = '/var/tmp/verif-c05-empty-project'
 
 def fix_keys(out):
     out['refs'] = {int(k): v for k, v in out['refs'].items()}
+    out['gvars'] = {int(k): v for k, v in out.get('gvars', {}).items()}
     out['fails'] = [tuple(f) for f in out['fails']]
     out['renders'] = [tuple(r) for r in out['renders']]
     return out
@@ -335,6 +384,10 @@ def programs(ctx):
         n_random = 3000
     for _ in range(n_random):
         out.append((G.gen_program(rng, size=10), 'random'))
+    # one module variable (re)bound through `global` declarations of SEVERAL scopes (gen/globalvars.py)
+    grng = ctx.subrng('globalvars')
+    for plan in GV.plans(ctx.size(36, 600)):
+        out.append((GV.gen_program(grng, plan), 'globals'))
     out += [(p, 'witness') for p in WITNESSES]
     return out
 
@@ -522,6 +575,18 @@ def run(ctx):
                           bucket='refs=%d' % min(len(model), 5))
                 if model != impl:
                     ctx.tie_broken('correspondence:refs',
+                                   short({'source': out['src'], 'occ': occs[u], 'jedi': impl, 'model': model}, 1500))
+            # ---- stream globalstep: references.py:_find_global_variables alone vs Model.RefsGlobal.globalVariablesOf
+            # with the guard the translator reads from the source (programs with a `global` statement)
+            for u, impl in out['gvars'].items():
+                if isinstance(impl, str):
+                    ctx.count('raised', (out['src'], u), nontrivial=False, bucket='globalstep:' + impl)
+                    continue
+                model = sorted(a['globalvars'][u])
+                ctx.count('globalstep/' + out['tag'], (out['src'], u), nontrivial=len(model) > 1,
+                          bucket='linked=%d' % min(len(model), 6))
+                if model != impl:
+                    ctx.tie_broken('correspondence:globalstep',
                                    short({'source': out['src'], 'occ': occs[u], 'jedi': impl, 'model': model}, 1500))
             for u, prs, new_code in out['renders']:
                 model_ids = sorted(a['refs'][u])
